@@ -118,7 +118,7 @@ def _restructure_gate(prog, res):
     unknown = None
     for q in names:
       if q not in table:
-        continue
+        continue      # a transparent helper: inlined, judged with its caller
       d = inline.edit_size(mod.name, q, table[q][0])
       if d is None:
         unknown = q
